@@ -357,9 +357,15 @@ func c13EndToEnd(t *testing.T, c *h.Collector) {
 			// where the two pods run: not bound; both on the group's first listed node; the first on a node
 			// that no longer exists and the second on a node of another group (a pod counts by what it
 			// selects, wherever it is bound)
-			for _, bind := range []string{"unbound", "own", "elsewhere"} {
+			// "terminating": both pods carry a deletion timestamp in the past (held by a finalizer): they are
+			// still listed and still count. "prefer": the group taints with PreferNoSchedule and the tainted
+			// node carries that effect: it is tainted all the same and does not count as capacity
+			for _, bind := range []string{"unbound", "own", "elsewhere", "terminating", "prefer"} {
 				bind := bind
 				g := StdGroup("g1")
+				if bind == "prefer" {
+					g.Opts.TaintEffect = v1.TaintEffectPreferNoSchedule
+				}
 				g.Opts.MinNodes, g.Opts.MaxNodes = 0, 10
 				g.ASG.Max = 10
 				var wantCPU, wantMem int64
@@ -378,6 +384,7 @@ func c13EndToEnd(t *testing.T, c *h.Collector) {
 							case "t":
 								o.TaintAge = dp(0)
 								o.CPUMilli, o.MemBytes = 7000, 1<<30
+								o.TaintEffect = g.Opts.TaintEffect
 							case "c":
 								o.Cordoned = true
 								o.CPUMilli, o.MemBytes = 9000, 2<<30
@@ -400,6 +407,10 @@ func c13EndToEnd(t *testing.T, c *h.Collector) {
 								p.Spec.NodeName = "node-that-is-gone"
 							case bind == "elsewhere":
 								p.Spec.NodeName = on.Name
+							case bind == "terminating":
+								past := metav1.NewTime(time.Now().Add(-10 * time.Minute))
+								p.DeletionTimestamp = &past
+								p.Finalizers = []string{"example.com/hold"}
 							}
 							hh.W.Pods = append(hh.W.Pods, p)
 						}
